@@ -223,3 +223,60 @@ def oracleHandle (args : List String) : String :=
   | _ => "bad-request"
 
 end Driver.HtmlP
+
+namespace Driver.HtmlP
+open Gomjml.Lexer
+
+/-- attributes of a start tag: `name`, `name=value`, `name="value"`, `name='value'` -/
+def parseAttrs (s : String) : List (String × String) := Id.run do
+  let cs := s.toList.toArray
+  let mut out : Array (String × String) := #[]
+  let mut i := 0
+  let isSp := fun (c : Char) => c == ' ' || c == '\n' || c == '\t' || c == '\r'
+  while i < cs.size do
+    while i < cs.size && (isSp cs[i]! || cs[i]! == '/') do i := i + 1
+    if i >= cs.size then break
+    let st := i
+    while i < cs.size && !isSp cs[i]! && cs[i]! != '=' do i := i + 1
+    let name := String.mk (cs.extract st i).toList
+    while i < cs.size && isSp cs[i]! do i := i + 1
+    if i < cs.size && cs[i]! == '=' then
+      i := i + 1
+      while i < cs.size && isSp cs[i]! do i := i + 1
+      if i < cs.size && (cs[i]! == '"' || cs[i]! == '\'') then
+        let q := cs[i]!
+        i := i + 1
+        let vs := i
+        while i < cs.size && cs[i]! != q do i := i + 1
+        out := out.push (name.toLower, String.mk (cs.extract vs i).toList)
+        i := i + 1
+      else
+        let vs := i
+        while i < cs.size && !isSp cs[i]! do i := i + 1
+        out := out.push (name.toLower, String.mk (cs.extract vs i).toList)
+    else
+      if name != "" then out := out.push (name.toLower, "")
+  return out.toList
+
+def hexS (s : String) : String :=
+  let hd := fun (n : Nat) => if n < 10 then Char.ofNat (48 + n) else Char.ofNat (87 + n)
+  String.mk (s.toUTF8.toList.flatMap (fun b => [hd (b.toNat / 16), hd (b.toNat % 16)]))
+
+/-- `tags <hex>`: the token stream with parsed attributes (every string field hex):
+    `o:name:k=v,k=v` `v:name:…` `c:name` `t:text` `co` `cc` `nco` `ncc` -/
+def tagsHandle (args : List String) : String :=
+  match args with
+  | hx :: _ =>
+    let toks := Lex.lex (unhex hx)
+    let showA := fun (a : String) => ",".intercalate ((parseAttrs a).map (fun kv => hexS kv.1 ++ "=" ++ hexS kv.2))
+    " ".intercalate (toks.toList.filterMap (fun t =>
+      match t with
+      | .open_ n a => some s!"o:{hexS n}:{showA a}"
+      | .void n a => some s!"v:{hexS n}:{showA a}"
+      | .close n => some s!"c:{hexS n}"
+      | .text s => some s!"t:{hexS s}"
+      | .msoOpen _ => some "co" | .msoClose => some "cc" | .notMsoOpen _ => some "nco" | .notMsoClose => some "ncc"
+      | _ => none))
+  | _ => "bad-request"
+
+end Driver.HtmlP
